@@ -28,12 +28,12 @@ REQ = ['Evo.Evaluation']
 CLAUSES = ['no exception', 'sound (only input individuals, valid fitness = objective of the evaluated graph)',
            'pre-evaluated passed through', 'no objective call on other graphs (no re-evaluation)',
            'not evaluable => left out', 'evaluable: returned iff it reached the objective, evaluated once',
-           'generous limit cuts nobody off', 'one callback per objective call', 'expired limit: forced evaluation']
+           'generous limit cuts nobody off', 'one callback per objective call', 'expired limit: forced evaluation',
+           'enabled delegate evaluator asked about every newly evaluated individual']
 FN = ('fun co => match co with (c, ob) => [agree c ob; holds_b c ob; negb (o_raised ob); clause_sound c ob; '
       'clause_passthrough c ob; clause_no_reevaluation c ob; clause_left_out c ob; clause_exactly c ob; '
-      'clause_generous c ob; clause_callback ob; clause_expired c ob] end')
+      'clause_generous c ob; clause_callback ob; clause_expired c ob; clause_delegate c ob] end')
 NB = 2 + len(CLAUSES)
-KNOWN_SEQ_DELEGATE = 'C05-sequential-ignores-delegate'
 NOT_A_NUMBER = 987654321.0
 
 
@@ -418,11 +418,6 @@ def case_key(sc, run):
 # ----------------------------------------------------------------------------------------
 # the check
 # ----------------------------------------------------------------------------------------
-def _known_keys():
-    from common import load_known
-    return {k.get('key') for k in load_known() if k.get('property') == 'C05' and k.get('status') == 'known'}
-
-
 def evaluate_cases(ctx, group, triples, with_canary=False):
     """triples: (scenario, run, observation); emits Coq cases, registers results"""
     cases = [coq_case(sc, run, ob) for sc, run, ob in triples]
@@ -442,8 +437,6 @@ def evaluate_cases(ctx, group, triples, with_canary=False):
     res = ctx.coq_cases(group, REQ, FN, cases, NB, shard=60)
     if canary_at is not None and res[canary_at][:2] == (False, False):
         ctx.canaries_caught += 1
-    known = None
-    seq_deleg_ignored = 0
     for (sc, run, ob), bits in zip(triples, res):
         ag, ho = bits[0], bits[1]
         case = {'scenario': sc, 'run': run, 'observed': ob}
@@ -452,18 +445,6 @@ def evaluate_cases(ctx, group, triples, with_canary=False):
             ctx.violate(group, case, describe_violation(sc, run, ob, bits[2:]))
         if not ag:
             ctx.disagree(group, case, 'model and implementation differ (returned individuals, event log or delegate calls)')
-        dg = sc.get('delegate')
-        if dg and dg['enabled'] and not ob['deleg'] and sc['pop']:
-            # the enabled delegate evaluator was never asked to compute anything
-            seq_deleg_ignored += 1
-            if known is None:
-                known = _known_keys()
-            if KNOWN_SEQ_DELEGATE in known:
-                ctx.violate(group, case, 'enabled delegate evaluator never consulted', finding_key=KNOWN_SEQ_DELEGATE)
-    if seq_deleg_ignored:
-        ctx.notes.append('%s: in %d call(s) an enabled delegate evaluator was handed to a dispatcher that never '
-                         'called compute_graphs (SequentialDispatcher); the individuals were evaluated on their own '
-                         'graphs' % (group, seq_deleg_ignored))
     return res
 
 
@@ -546,7 +527,7 @@ def run(ctx):
                 ob_1 = observe(sc, r1, tmpdir)
                 triples.append((sc, r1, ob_1))
                 dg = sc.get('delegate')
-                comparable = not tk.startswith('expired') and not (dg and dg['enabled']) and in_scope(sc)
+                comparable = not tk.startswith('expired') and delegate_order_free(dg) and in_scope(sc)
                 cross.append((sc, rn, ob, ob_1, ob_s, comparable))
         ctx.set_exhaustive('workers', False)
         evaluate_cases(ctx, 'workers', triples)
@@ -562,6 +543,12 @@ def run(ctx):
             pass
 
 
+def delegate_order_free(dg):
+    """the parallel dispatcher hands the population to the delegate in reversed order, the sequential one in
+    input order: both evaluate the same graphs only if the delegate ignores positions"""
+    return not (dg and dg['enabled']) or (dg['mul'] == 0 and dg['drop'] == 0)
+
+
 def check_cross(ctx, cross, group='cross'):
     """sequential vs parallel (1 worker, n workers): which individual received which fitness"""
     def outs(ob):
@@ -569,8 +556,8 @@ def check_cross(ctx, cross, group='cross'):
     cases, meta = [], []
     for sc, rn, ob, ob_1, ob_s, comparable in cross:
         if not comparable:
-            # with an expired limit the parallel dispatcher forces one evaluation, with a delegate the
-            # sequential dispatcher evaluates other graphs: only parallel(n) vs parallel(1) is compared
+            # with an expired limit the parallel dispatcher forces one evaluation, with a position dependent
+            # delegate the two dispatchers are handed different graphs: only parallel(n) vs parallel(1) is compared
             cases.append('(%s, %s, %s)' % (outs(ob), outs(ob_1), outs(ob_1)))
         else:
             cases.append('(%s, %s, %s)' % (outs(ob), outs(ob_1), outs(ob_s)))
@@ -612,7 +599,7 @@ def replay(ctx, payload):
             triples += [(sc, rs, ob_s), (sc, r1, ob_1)]
             dg = sc.get('delegate')
             comparable = (not sc['timer']['kind'].startswith('expired') and sc['timer']['kind'] != 'fake'
-                          and not (dg and dg['enabled']) and in_scope(sc))
+                          and delegate_order_free(dg) and in_scope(sc))
             check_cross(ctx, [(sc, rn, ob, ob_1, ob_s, comparable)], group='replay-cross')
         evaluate_cases(ctx, 'replay', triples)
     finally:
